@@ -22,7 +22,7 @@ def exTx : List Value :=
 def b₀ : Bytes :=
   [31, 10, 8, 10, 2, 47, 109, 18, 2, 8, 5, 18, 6, 10, 1, 117, 18, 1, 55, 26, 6, 10, 1, 1, 18, 1, 2, 34, 1, 97, 40, 5]
 
-theorem b₀_is_the_encoding : encodeTx exTx = b₀ := by decide
+theorem example_is_the_encoding : encodeTx exTx = b₀ := by decide
 
 /-- Re-encodings of `b₀`, one per class the harness' rewriter produces (`design-notes/C16wire.md`). -/
 def lengthPrefixPadded : Bytes := [0x9f, 0x00] ++ b₀.drop 1
